@@ -21,7 +21,32 @@ CHECKS = {
  "C18": dict(tech=E2,
    text="Every LENGTH 0..=600 (EIA3) / 1..=600 (EEA3) x (bearer,direction) pairs x 3 key/COUNT values x 3 message classes, and every single-bit flip of the message for every LENGTH<=96 and every 37th after, compared with bit-level 128-EEA3/128-EIA3 over the independent ZUC; EEA3 applied twice must restore the first LENGTH bits.",
    note="Trusted base: refmodels::zuc eea3/eia3, pinned by 3GPP EEA3 set 1 and EIA3 sets 1, 2 and the 577-bit set. LENGTH > 600 and messages shorter than ceil(LENGTH/32) words are outside the bound/contract.", ref="§3 C18"),
+ "C03": dict(tech=E2 + " with the nonce injected at an RNG seam",
+   text="Private keys x nonces over boundary alphabets {1,2,3,n-2,n-3,2^255,limb patterns,Annex,seeded} (nonce via the RNG seam), IDs {default,'',1,16,37,8191 bytes} x message lengths {0..4096 boundary set}: every signature is 64 bytes with r,s in [1,n-1], equals the reference signature for the nonce the seam reports as accepted, is accepted by the reference verifier and by the library; a reference-made signature (other nonce) and 80 OpenSSL signatures are accepted; GM/T 0003.5 Annex A reproduced; 8192-byte ID refused.",
+   note="Trusted base: refmodels::sm2 (big-integer affine/Jacobian arithmetic pinned by the Annex P, ZA, e, r, s and OpenSSL corpus). IDs are &'static str in the API, so only UTF-8 IDs are expressible.", ref="§3 C03"),
+ "C04": dict(tech=E2 + " (fault enumeration of a valid signature)",
+   text="For 12 (thorough 60) reference-made signatures: all 512 single-bit flips, r/s substituted by {0,1,n-1,n,n+1,p,2^256-1}, s=n-r, swapped, r+n/s+n, altered message/ID/key, -P, every encoding length 0..=130, the 12x12 boundary product, and pre-searched signatures with r or s < 2^224 together with their +n aliases. The library must return Err exactly when the reference verifier (or the 64-byte rule) rejects, Ok when it accepts, and never panic.",
+   note="Trusted base: refmodels::sm2::verify. The +n alias cases rest on pre-searched vectors in corpus/ (re-validated by the reference each run).", ref="§3 C04"),
+ "C05": dict(tech=E2 + " with the nonce injected at an RNG seam",
+   text="Every message length 1..=300 x 2 orders x 2 C1 encodings, keys x nonce alphabet, long messages, nonces crafted so that the KDF output is all zero (step A5 retry), KDF for every klen 1..=300 and 1024/4096/65537: ciphertext equals the reference ciphertext byte for byte for the accepted nonce, the reference decryptor recovers M (also from real-RNG ciphertexts), the library decrypts its own, reference-made and 100 OpenSSL ciphertexts; Annex example reproduced.",
+   note="Trusted base: refmodels::sm2 / sm3::kdf pinned by the Annex C1,C2,C3 and the OpenSSL corpus. Messages > 64 KiB not explored.", ref="§3 C05"),
+ "C06": dict(tech=E2 + " (fault enumeration of valid ciphertexts)",
+   text="For base ciphertexts of lengths {1,17,32,33} (thorough 1..=40) x 4 configurations: every single-bit flip, every truncation, extension, off-curve C1 (neighbours, random, order-2) with the original body and with the body completed for the foreign point (invalid-curve attack), (0,0), x+p aliases of a tiny-x point, compressed non-residue x incl. the body completed for the bogus root, all-zero KDF, C1/C2/C3 taken from another ciphertext. Every one must give Err - never Ok, never a panic - and the untouched ciphertext must decrypt.",
+   note="Trusted base: refmodels::sm2 strict decoder/decryptor (each case's expectation is cross-checked against it). y >= p aliases are not constructible (no point with y < 2^224 known).", ref="§3 C06"),
+ "C11": dict(tech=E2,
+   text="Field layer (via hooks): all 4-limb values with limbs in {0,1,2^32,2^63,2^64-1} below p / n, values within 4 of the modulus, 2^256-m, R, R^2, seeded; unary ops on all, binary ops on all x ~60 extreme (thorough all x all), pow with boundary exponents, crafted Montgomery products 0/1/m-1; raw u256/u512 helpers. Group layer (public API): [j]G x 4 Jacobian representations + 3 encodings of infinity, all 961 ordered pairs through point_add, dbl/neg/affine/validity/SEC1, off-curve triples, scalars {small, n-1, n+w for w<=300, 2^256-1, p, every v*16^i, every b*256^i, adjacent bytes} through g_mul and scalar_mul of 3 bases, and all 8160 table entries, against affine big-integer arithmetic.",
+   note="Trusted base: refmodels::ec affine formulas. Crate-private dead code (fp_div2, trait fp_neg, fn_inv) is not judged. Operands >= modulus are never fed to modular routines.", ref="§3 C11"),
+ "C14": dict(tech=E1 + " (environment = byte source behind the sampler); statistical clauses only monitored",
+   text="For each of the 13 call sites the RNG seam answers with every sequence of <=2 (thorough 3) out-of-range candidates {0, order, order+1, p-2, p-1, p, 2^256-1} followed by an in-range one; the scalar the operation used - recovered from its public output with the reference and from the seam log - must be an offered candidate in [1, order-1]. All operation sequences of length 2 (thorough 3) on one thread must consume a fresh candidate each and never reuse a scalar. Claimed for the range / data-flow / freshness clauses only.",
+   note="NOT decided: 'every bit unbiased' and 'OS-seeded' are distributional statements; a separate monitor (4096 draws, duplicates, 8 sigma per bit, fresh threads differ) runs but is not model checking. Trusted base: the seam hooks (additive, cfg-guarded) and refmodels.", ref="§3 C14"),
+ "C15": dict(tech=E1 + " (protocol model with a man in the middle)",
+   text="stateright BFS over all adversary choices on the four deliveries between two real Exchange objects (points: pass / re-randomised representation / -R / 2R / G / off-curve; hashes: pass / two bit flips / zero), per configuration, every subset of messages altered; honest paths for every klen 1..=200 and the 13x13 nonce product. Honest runs must give both sides the reference K (w=127), S_B, S_A (one-byte tags) and confirmation true; any altered message makes the receiving step fail; off-curve points are refused; no panic. Includes the GM/T 0003.5 example.",
+   note="Trusted base: refmodels::sm2::kex_party pinned by the Annex K, S_B, S_A. Out-of-order calls of the four steps are outside the contract.", ref="§3 C15"),
+ "C19": dict(tech=E2,
+   text="Keys {1,2,n-2,Annex,seeded,searched byte patterns} through every encoder/decoder (SEC1 both forms, hex, SPKI DER/PEM LF+CRLF, bytes, PKCS#8 DER/PEM) with an independent DER reader on the library's documents; 20 OpenSSL key pairs; every length 0..=130 (bytes) / 0..=140 (hex) at the decoders, off-curve / unreduced / foreign-tag points via new, hex and SPKI; ASN.1 ciphertexts for ephemeral scalars pre-searched so that C1.x / C1.y have 1..3 leading zero bytes, trailing zeros or the high bit set: document = GM/T 0009 SEQUENCE byte for byte, decrypt_asn1 of library, reference and OpenSSL documents returns M, malformed DER refused without panic.",
+   note="Trusted base: refmodels::der (60-line reader/writer), OpenSSL corpus. Private-key range (d=0, d>=n-1) is judged by C20, not here.", ref="§3 C19"),
 }
+
 
 NOT_YET = {
 }
